@@ -637,6 +637,70 @@ Fixpoint ofrag (s : schema) : bool :=
       && forallb (fun kv => ofrag (snd kv)) props
   end.
 
+(* ------------------------------------------------------------------ [obj_frag]: the object fragment of
+   C09_merge_sound_obj / C09_merge_never_obj / C09_merge_all_perm_equiv (exactness, both directions).
+   Keywords IN the fragment, hereditarily:
+     type (lists; see [tx]) . enum / const (non-float scalars) . properties (unique names) . required .
+     additionalProperties absent | true | false | SCHEMA . minProperties / maxProperties . allOf (members in the
+     fragment: this is what merge_additional's `allOf[additional, prop]` wrapper needs) . nested objects.
+   Side conditions = decidable exclusion classes of the findings:
+     [tx] is the ONE instance type that does not occur, TNumber or TInteger: `integer` and `number` never occur
+       together in a pair (Known_F1 := both occur; C09_merge_never_refuted_int_number);
+     an object keyword group is guarded by "type":"object" (C09_merge_never_refuted_untyped);
+     no format (int32 /\ int64 = never), no array keyword (F5, F7: see [arr_frag] below), no number/string
+     validation (`unimplemented!`), no $ref, anyOf, oneOf, not (F3, F10). *)
+Definition notype (tx : itype) (ty : option (list itype)) : bool :=
+  opt_all (forallb (fun t => negb (itype_eqb t tx))) ty.
+
+Fixpoint uniq_keys {A} (l : list (ustring * A)) : bool :=
+  match l with
+  | [] => true
+  | (k, _) :: r => negb (has_key k r) && uniq_keys r
+  end.
+
+Fixpoint obj_frag (tx : itype) (s : schema) : bool :=
+  match s with
+  | SBool _ => true
+  | SObj ty fmt enum cst nv sv ik items ai mni mxi uq props req ap mnp mxp allo anyo oneo no ref _ _ =>
+      notype tx ty && is_none fmt && simple_enum enum && opt_all simple_json cst
+      && numv_is_none nv && strv_is_none sv
+      && arr_absent ik ai mni mxi uq && match items with [] => true | _ => false end
+      && is_none anyo && is_none oneo && is_none no && is_none ref
+      && (obj_absent props req ap mnp mxp || all_object ty)
+      && uniq_keys props
+      && forallb (fun kv => obj_frag tx (snd kv)) props && opt_all (obj_frag tx) ap
+      && opt_all (forallb (obj_frag tx)) allo
+  end.
+
+(* JSON instances as serde_json produces them: object keys are unique (Spec/Valid.v assumes it too) *)
+Fixpoint wf_json (v : json) : bool :=
+  match v with
+  | JArr l => forallb wf_json l
+  | JObj kvs =>
+      (fix go (l : list (ustring * json)) : bool :=
+         match l with
+         | [] => true
+         | (k, x) :: r => negb (has_key k r) && wf_json x && go r
+         end) kvs
+  | _ => true
+  end.
+
+(* decidable exclusion class of finding C09-F1 for a pair: `integer` and `number` both occur *)
+Fixpoint uses_type (t : itype) (s : schema) : bool :=
+  match s with
+  | SBool _ => false
+  | SObj ty _ _ _ _ _ _ items ai _ _ _ props _ ap _ _ allo anyo oneo no _ _ _ =>
+      match ty with Some l => mem_ty t l | None => false end
+      || existsb (uses_type t) items || match ai with Some x => uses_type t x | None => false end
+      || existsb (fun kv => uses_type t (snd kv)) props || match ap with Some x => uses_type t x | None => false end
+      || match allo with Some l => existsb (uses_type t) l | None => false end
+      || match anyo with Some l => existsb (uses_type t) l | None => false end
+      || match oneo with Some l => existsb (uses_type t) l | None => false end
+      || match no with Some x => uses_type t x | None => false end
+  end.
+Definition Known_F1 (a b : schema) : bool :=
+  (uses_type TInteger a || uses_type TInteger b) && (uses_type TNumber a || uses_type TNumber b).
+
 (* instances without an empty array anywhere (finding C09-F5: conflicting `items` merge to never) *)
 Fixpoint no_empty_arr (v : json) : bool :=
   match v with
